@@ -508,6 +508,227 @@ def build_reentrant(rng, cid):
     return Case(cid, simple_run(cid, prog, [docj]), meta, True, ["reentrant", kind])
 
 
+# ---------------------------------------------------------------- contains(v) agrees with ==, for special values
+# "contains(v) agrees with == applied to each element in order": elements and needles that no JSON document can spell
+# (NaN computed several ways, both infinities, -0), numeric strings of every shape, booleans next to 0/1, null next to
+# unset.  Every query prints `a[i] == v` for every i next to `a.contains(v)`: the last word must be the OR of the others
+# (the implementation judged against itself), and every word must be what the documented == says (Python reference).
+import math
+
+SPECIAL_VALUES = [
+    ('+"NaN"', math.nan), ('("Inf" - "Inf")', math.nan), ('(0 * +"Inf")', math.nan), ('num("nan")', math.nan),
+    ('(("1e308" * 10) - ("1e308" * 10))', math.nan),
+    ('+"Inf"', math.inf), ('("1e308" * 10)', math.inf), ('num("inf")', math.inf),
+    ('(0 - +"Inf")', -math.inf), ('("-1e308" * 10)', -math.inf), ('num("-Inf")', -math.inf),
+    ('(0 * (0 - 1))', -0.0), ('+"-0"', -0.0), ('0', 0.0), ('(0 - 0)', 0.0),
+    ('1', 1.0), ('2', 2.0), ('0.5', 0.5), ('10', 10.0), ('(0 - 1)', -1.0), ('(0.1 + 0.2)', 0.1 + 0.2), ('0.3', 0.3),
+    ('"1"', "1"), ('"1.0"', "1.0"), ('" 1"', " 1"), ('"1e0"', "1e0"), ('"+1"', "+1"), ('"0"', "0"), ('"-0"', "-0"), ('"00"', "00"),
+    ('"0.0"', "0.0"), ('".5"', ".5"), ('"0.5"', "0.5"), ('"10"', "10"), ('"2"', "2"), ('""', ""), ('" "', " "), ('"abc"', "abc"),
+    ('"NaN"', "NaN"), ('"nan"', "nan"), ('"Inf"', "Inf"), ('"inf"', "inf"), ('"+Inf"', "+Inf"), ('"-Inf"', "-Inf"), ('"Infinity"', "Infinity"),
+    ('"true"', "true"), ('"false"', "false"), ('"null"', "null"), ('"0.30000000000000004"', "0.30000000000000004"),
+    ('true', True), ('false', False), ('null', None), ('unset_var', UNSET),
+]
+_NUMERIC = [sv for sv in SPECIAL_VALUES if isinstance(sv[1], float)]
+_NANS = [sv for sv in SPECIAL_VALUES if isinstance(sv[1], float) and sv[1] != sv[1]]
+_JSONABLE = [sv for sv in SPECIAL_VALUES if sv[1] is not UNSET and not (isinstance(sv[1], float) and (sv[1] != sv[1] or math.isinf(sv[1]) or (sv[1] == 0 and math.copysign(1, sv[1]) < 0)))
+             and not sv[0].startswith(("(", "+", "num"))]
+
+
+def build_special(rng, cid):
+    style = rng.choice(["numbers", "numbers", "mixed", "mixed", "mixed", "with-nan"])
+    pool = _NUMERIC if style == "numbers" else SPECIAL_VALUES
+    n = rng.choice([0, 1, 1, 2, 3, 4, 5, 6])
+    elems = [rng.choice(pool) for _ in range(n)]
+    if style == "with-nan" and elems:
+        elems[rng.randrange(len(elems))] = rng.choice(_NANS)
+    holder = rng.choice(["a", "a", "o.items", "t[1]", "$.list", "pushed"])
+    lines, doc = [], '{"n": 1}'
+    h = holder
+    esrc = ", ".join(e[0] for e in elems)
+    if holder == "a":
+        lines.append(" a = [%s]" % esrc)
+    elif holder == "o.items":
+        lines.append(" o = {items: [%s]}" % esrc)
+    elif holder == "t[1]":
+        lines.append(" t = [null, [%s], 7]" % esrc)
+    elif holder == "pushed":
+        h = "a"
+        lines.append(" a = []")
+        for e in elems:
+            lines.append(" a.push(%s)" % e[0])
+    else:
+        # the head of the list comes from the document, the rest is pushed
+        k = rng.randint(0, n)
+        for i in range(k):
+            elems[i] = rng.choice(_JSONABLE)
+        doc = V.to_json({"list": [e[1] for e in elems[:k]], "n": 1})
+        for e in elems[k:]:
+            lines.append(" $.list.push(%s)" % e[0])
+    vals = [e[1] for e in elems]
+    needles = [rng.choice(SPECIAL_VALUES) for _ in range(rng.randint(4, 9))]
+    needles[rng.randrange(len(needles))] = rng.choice(_NANS)
+    if elems and rng.random() < 0.6:
+        needles[rng.randrange(len(needles))] = rng.choice(elems)
+    lines.append(' print "a", %s, %s.length()' % (h, h))
+    out = ["a %s %s" % (pyref.pretty(vals), pyref.fmt_f(float(len(vals))))]
+    queries = []
+    for q, (nsrc, nval) in enumerate(needles):
+        direct = rng.random() < 0.4 and nsrc != "unset_var"
+        if direct:
+            vs = nsrc
+        else:
+            lines.append(" v = %s" % nsrc if nsrc != "unset_var" else " v = unset_var")
+            vs = "v"
+        eqs = ["%s[%d] == %s" % (h, i, vs) if rng.random() < 0.7 else "%s == %s[%d]" % (vs, h, i) for i in range(n)]
+        lines.append(' print %s' % ", ".join(['"q%d"' % q] + eqs + ['"|"', "%s.contains(%s)" % (h, vs)]))
+        want = [pyref.binop("==", x, nval) for x in vals]
+        out.append(" ".join(["q%d" % q] + [pyref.pretty(w) for w in want] + ["|", pyref.pretty(any(want))]))
+        queries.append(nsrc)
+    lines.append(' print "z", %s' % h)
+    out.append("z " + pyref.pretty(vals))
+    if holder == "$.list":
+        prog = "{\n" + "\n".join(lines) + "\n}"
+    else:
+        prog = "BEGIN {\n" + "\n".join(lines) + "\n}"
+    meta = {"prog": prog, "doc": doc, "history": ["elements [%s]" % esrc, "needles " + " ; ".join(queries)], "arrays": [h],
+            "expect_outcome": "ok", "expect_stdout": "".join(l + "\n" for l in out), "agree": queries}
+    return Case(cid, simple_run(cid, prog, [doc]), meta, any(isinstance(x, float) and x != x for x in vals + [nd[1] for nd in needles]),
+                ["special"])
+
+
+# ---------------------------------------------------------------- extreme indices after every length-changing operation
+# "a[-k] addresses the k-th element from the end and an index before the start is an error": indices at and around
+# +-2^63, +-2^62, +-2^32, +-2^31, 1e19, 1e300, NaN and the infinities, read / stored to / incremented on an array whose
+# length has just been changed by push, pop, popfirst, a store past the end, sort or reassignment.  An index that is a real
+# number below -length must be a runtime error; one above the end reads null and leaves the array alone (a store that far
+# is refused); what cannot be an int64 at all (NaN, +Inf, >= 2^63) may be either -- never anything else.
+
+EXTREME_INDEX = [
+    ("9223372036854775807", 2.0 ** 63), ("9223372036854775808", 2.0 ** 63), ("9223372036854775809", 2.0 ** 63), ("9223372036854777856", 2.0 ** 63 + 2048),
+    ("-9223372036854775807", -2.0 ** 63), ("-9223372036854775808", -2.0 ** 63), ("-9223372036854775809", -2.0 ** 63), ("-9223372036854777856", -2.0 ** 63 - 2048),
+    ("(0 - 9223372036854775808)", -2.0 ** 63), ("(-9223372036854775808)", -2.0 ** 63), ("-(9223372036854775808)", -2.0 ** 63),
+    ("9223372036854774784", 2.0 ** 63 - 1024), ("-9223372036854774784", -2.0 ** 63 + 1024),
+    ("4611686018427387904", 2.0 ** 62), ("-4611686018427387904", -2.0 ** 62), ("4611686018427387903", 2.0 ** 62), ("-4611686018427387905", -2.0 ** 62),
+    ("10000000000000000000", 1e19), ("-10000000000000000000", -1e19), ("18446744073709551616", 2.0 ** 64), ("-18446744073709551616", -2.0 ** 64),
+    ("18446744073709551615", 2.0 ** 64), ("-18446744073709551615", -2.0 ** 64),
+    ('+"1e300"', 1e300), ('(0 - "1e300")', -1e300), ('-"1e300"', -1e300), ('("1e150" * "1e150")', 1e300),
+    ('+"NaN"', math.nan), ('("Inf" - "Inf")', math.nan), ('+"Inf"', math.inf), ('(0 - +"Inf")', -math.inf), ('-"Inf"', -math.inf), ('("1e308" * 10)', math.inf),
+    ("4294967296", 2.0 ** 32), ("-4294967296", -2.0 ** 32), ("4294967297", 2.0 ** 32 + 1), ("-4294967295", -2.0 ** 32 + 1), ("-4294967297", -2.0 ** 32 - 1),
+    ("2147483648", 2.0 ** 31), ("-2147483648", -2.0 ** 31), ("-2147483649", -2.0 ** 31 - 1), ("2147483647", 2.0 ** 31 - 1),
+    ("9007199254740993", 2.0 ** 53), ("-9007199254740993", -2.0 ** 53),
+]
+
+
+def build_extreme(rng, cid):
+    holder = rng.choice(["a", "a", "o.items", "t[1]", "$.list", "p.inner.items"])
+    h = holder
+    numeric = rng.random() < 0.6
+    pool = [0.0, 1.0, 2.0, 3.0, 5.0, 10.0, 2.5, -1.0] if numeric else [1.0, "a", "b", "10", 9.0, True, None, "", 2.0]
+    init = [rng.choice(pool) for _ in range(rng.choice([0, 0, 1, 2, 3, 4, 5]))]
+    lst = list(init)
+    lines, out = [], []
+    doc = '{"n": 1}'
+    if HOLDERS[h]:
+        lines.append(" " + HOLDERS[h](pyref.literal(init)))
+    else:
+        doc = V.to_json({"list": init, "box": {"list": init}, "n": 1})
+    sim = Ideal({h: lst})
+    hist = []
+    nops = rng.choice([1, 1, 2, 2, 3, 4])
+    for k in range(nops):
+        op = rng.choice(["push", "push", "pop", "popfirst", "fill", "sort", "reassign"])
+        if op == "push":
+            x = rng.choice(pool)
+            lst.append(x)
+            text = "%s.push(%s)" % (h, pyref.literal(x))
+        elif op == "pop":
+            if lst:
+                lst.pop()
+            text = "%s.pop()" % h
+        elif op == "popfirst":
+            if lst:
+                lst.pop(0)
+            text = "%s.popfirst()" % h
+        elif op == "fill":
+            gap = rng.choice([0, 0, 1, 2, 5])
+            x = rng.choice(pool)
+            text = "%s[%d] = %s" % (h, len(lst) + gap, pyref.literal(x))
+            lst.extend([None] * gap)
+            lst.append(x)
+        elif op == "sort":
+            lst[:] = sim.eval(("call", h, "sort", []))
+            text = "%s = %s.sort()" % (h, h)
+        else:
+            new = [rng.choice(pool) for _ in range(rng.choice([0, 1, 2, 3]))]
+            lst[:] = new
+            text = "%s = %s" % (h, pyref.literal(new))
+        hist.append(text)
+        lines.append(" " + text)
+    lines.append(' print "s", %s, %s.length()' % (h, h))
+    out.append("s %s %s" % (pyref.pretty(lst), pyref.fmt_f(float(len(lst)))))
+    isrc, x = rng.choice(EXTREME_INDEX)
+    if rng.random() < 0.12:
+        # the exact boundaries, as controls
+        k = rng.choice([-len(lst) - 1, -len(lst), -1, len(lst), len(lst) + 1]) if lst else rng.choice([-1, 0, 1])
+        isrc, x = ("%d" % k, float(k))
+    if rng.random() < 0.15 and x == x and not math.isinf(x):
+        # the same index reached by arithmetic on the (just changed) length
+        isrc, x = ("(%s.length() + %s)" % (h, isrc), float(len(lst)) + x)
+    probe = rng.choice(["read", "read", "store", "store", "inc", "inc", "read-twice"])
+    if probe in ("read", "read-twice"):
+        ptext = 'print "r", %s[%s]' % (h, isrc) if probe == "read" else 'print "r", %s[%s], %s[%s]' % (h, isrc, h, isrc)
+    elif probe == "store":
+        ptext = '%s[%s] = 7' % (h, isrc)
+    else:
+        ptext = rng.choice(["%s[%s]++", "x = ++%s[%s]", "%s[%s] += 1", "%s[%s]--", "x = %s[%s]++"]) % (h, isrc)
+    lines.append(" " + ptext)
+    if not ptext.startswith("print"):
+        lines.append(' print "w"')
+    lines.append(' print "e", %s.length(), %s' % (h, h))
+    hist.append(ptext)
+    prefix = "".join(l + "\n" for l in out)
+    n = len(lst)
+    lenient = x != x or x >= 2.0 ** 63 or (math.isinf(x) and x > 0)
+    # the documented alternatives: (outcome, stdout) the oracle accepts
+    err = ("runtime", prefix)
+    unchanged = "e %s %s\n" % (pyref.fmt_f(float(n)), pyref.pretty(lst))
+    if probe in ("read", "read-twice"):
+        beyond = ("ok", prefix + ("r null\n" if probe == "read" else "r null null\n") + unchanged)
+    else:
+        beyond = err            # a store that far past the end is refused (the fill limit: C20), never carried out
+    if lenient:
+        accept = [err, beyond]
+    elif x < 0 and pyref.trunc_int64(x) + n < 0:
+        accept = [err]
+    else:
+        i = pyref.trunc_int64(x)
+        if i < 0:
+            i += n
+        if i >= n:
+            if probe in ("read", "read-twice") or i > 1024 * 1024:
+                accept = [beyond]
+            else:
+                accept = None       # a small fill: left to the histories above
+        else:
+            if probe == "read":
+                accept = [("ok", prefix + "r %s\n" % pyref.pretty(lst[i]) + unchanged)]
+            elif probe == "read-twice":
+                accept = [("ok", prefix + "r %s %s\n" % (pyref.pretty(lst[i]), pyref.pretty(lst[i])) + unchanged)]
+            elif probe == "store":
+                l2 = list(lst)
+                l2[i] = 7.0
+                accept = [("ok", prefix + "w\n" + "e %s %s\n" % (pyref.fmt_f(float(n)), pyref.pretty(l2)))]
+            else:
+                accept = None
+    prog = ("{\n" if not HOLDERS[h] else "BEGIN {\n") + "\n".join(lines) + "\n}"
+    meta = {"prog": prog, "doc": doc, "history": hist, "arrays": [h], "index": isrc, "probe": probe}
+    if accept is not None:
+        meta["accept"] = [list(a) for a in accept]
+    else:
+        meta["accept_prefix"] = prefix
+    return Case(cid, simple_run(cid, prog, [doc]), meta, abs(x) >= 2.0 ** 31 or x != x, ["extreme"])
+
+
 def _calls(e, n, methods):
     if e[0] != "call":
         return False
@@ -545,7 +766,14 @@ class C15(Check):
             "Python list machine (contains = '==' element by element in order, sort stable/numeric iff all numbers/copy); "
             "alias-free by construction; plus recursive functions whose body calls push/contains with the recursive call as the "
             "argument (the same call site re-entered inside its own argument: deep copy, chains, fan-out, mutual recursion, member-path "
-            "receivers) vs Python mirrors; non-trivial = a removal followed by an insertion on the same array, or a nested call")
+            "receivers) vs Python mirrors; plus arrays of special values (NaN computed several ways, +-Inf, -0, numeric strings of "
+            "every shape, booleans, null, unset; literal, pushed, from the document, in slots) queried with special needles: every "
+            "a[i] == v printed next to a.contains(v), judged against each other and against the documented ==; plus extreme indices "
+            "(+-2^63 and neighbours, +-2^62, +-2^32, +-2^31, 1e19, 1e300, 2^64, NaN, +-Inf, literal and computed from the length) read, "
+            "stored to and incremented after every length-changing operation (push, pop, popfirst, store past the end, sort, "
+            "reassignment): an error below -length, null above the end, never another outcome; "
+            "non-trivial = a removal followed by an insertion on the same array, or a nested call (special: a NaN involved; "
+            "extreme: |index| >= 2^31 or NaN)")
 
     def generate(self, rng, tier):
         n = 700 if tier == "quick" else 20000
@@ -562,13 +790,42 @@ class C15(Check):
             cases.append(build_bulk(rng, "b%d" % k, big=(k % 15 == 7)))
         for k in range(150 if tier == "quick" else 3000):
             cases.append(build_reentrant(rng, "e%d" % k))
+        for k in range(160 if tier == "quick" else 4000):
+            cases.append(build_special(rng, "sp%d" % k))
+        for k in range(320 if tier == "quick" else 8000):
+            cases.append(build_extreme(rng, "x%d" % k))
         return cases
 
     def oracle(self, case, impl):
         m = case.meta
+        if "accept" in m or "accept_prefix" in m:
+            if impl.outcome in ("timeout", "noresult", "badcase"):
+                return None
+            got = impl.stdout.decode("utf-8", "replace")
+            what = "%s on %s after %s" % (m["probe"], m["index"], " ; ".join(m["history"][:-1]))
+            if impl.outcome not in ("ok", "runtime"):
+                return "extreme index (%s): the run ended in %r, output %r" % (what, impl.outcome, got)
+            if "accept" in m:
+                if [impl.outcome, got] not in m["accept"]:
+                    return "extreme index (%s): documented %s, implementation %r %r" % (
+                        what, " or ".join("%s %r" % (a[0], a[1]) for a in m["accept"]), impl.outcome, got)
+            elif not got.startswith(m["accept_prefix"]):
+                return "extreme index (%s): output %r does not start with %r" % (what, got, m["accept_prefix"])
+            return None
         if "expect_stdout" not in m:
             return None
         got = impl.stdout.decode("utf-8", "replace")
+        if "agree" in m and impl.outcome == "ok":
+            # the implementation against itself: contains(v) is the OR of a[i] == v
+            for ln in got.splitlines():
+                f = ln.split(" ")
+                if f[0].startswith("q") and "|" in f:
+                    eqs, res = f[1:f.index("|")], f[f.index("|") + 1:]
+                    if len(res) != 1 or any(w not in ("true", "false") for w in eqs + res):
+                        return "contains vs ==: unreadable line %r" % ln
+                    if ("true" in eqs) != (res[0] == "true"):
+                        return "contains(%s) says %s but == applied to each element says [%s] (array and queries: %s)" % (
+                            m["agree"][int(f[0][1:])], res[0], ", ".join(eqs), m["history"][0])
         if impl.outcome in ("timeout", "noresult", "badcase"):
             return None
         if m["expect_outcome"] == "any":
